@@ -253,7 +253,34 @@ def run(c):
         expect.append(got)
         meta.append(tag)
 
+    dims = {}
+
+    def dim(name, n=1):
+        dims[name] = dims.get(name, 0) + n
+
     def note(routine, cfg, nontrivial=True):
+        n_, na_ = cfg["N"], (cfg["N"] if cfg["Na"] == -1 else cfg["Na"])
+        if na_ < n_:
+            dim("roles: N_active < N")
+            dim("roles: testparticle_type %d" % cfg["tp"])
+            if any(m_ != 0 for m_ in cfg["ms"][na_:]):
+                dim("roles: massive test particles")
+            if any(m_ == 0 for m_ in cfg["ms"][na_:]):
+                dim("roles: massless test particles")
+        if na_ == 1 and n_ > 1:
+            dim("roles: single active body")
+        if any(m_ == 0 for m_ in cfg["ms"][:na_]):
+            dim("roles: zero-mass active body")
+        if cfg["soft"] != 0:
+            dim("options: softening != 0 (%s)" % routine.rstrip("01T"))
+        if cfg["G"] != 1.0:
+            dim("options: G != 1")
+        if cfg.get("ngx", 0) or cfg.get("ngy", 0) or cfg.get("ngz", 0):
+            dim("geometry: ghost boxes")
+        if n_ in (0, 1):
+            dim("scale: N in {0,1}")
+        if n_ > 128:
+            dim("scale: N > 128")
         key = (routine, cfg["N"], cfg["Na"], cfg["tp"], cfg["ignore"], cfg.get("ngx", 0), cfg.get("ngy", 0), cfg.get("ngz", 0), cfg["mkind"])
         c.count(key, nontrivial=nontrivial and cfg["N"] >= 2)
         hist[routine] = hist.get(routine, 0) + 1
@@ -393,6 +420,8 @@ def run(c):
         got = read_acc(sim, n)
         na = n if cfg["Na"] == -1 else cfg["Na"]
         shist["t=0" if cfg["t"] == 0 else ("t>0" if cfg["t"] > 0 else "t<0")] += 1
+        if cfg["t"] != 0:
+            dims["time: shear ghost boxes at t != 0"] = dims.get("time: shear ghost boxes at t != 0", 0) + 1
         drift = abs(1.5 * cfg["OMEGA"] * cfg["bs"][0] * cfg["t"]) * cfg["ngx"]
         if math.fmod(abs(1.5 * cfg["OMEGA"] * cfg["bs"][0] * cfg["t"]), cfg["bs"][1]) > cfg["bs"][1] / 2:
             shist["wrap_beyond_half_box"] += 1
@@ -553,6 +582,222 @@ def run(c):
             viol.append(("jacobi-split" + (":tp%d" % tptype if ntest else ""), "WHFast with gravity=jacobi and gravity=basic disagree after 3 steps by %.3g (N=%d, %d test particles, type %d)" % (errs, n, ntest, tptype),
                          dict(ms=ms, orbits=orb, dt=dt, err=errs, ntest=ntest, testparticle_type=tptype)))
 
+    # ======================================================================= cross-cutting dimensions
+    def mk_plain(cfg, xs, gravity, vs=None, boxed=None):
+        sim = rebound.Simulation()
+        sim.G = cfg["G"]; sim.softening = cfg["soft"]
+        sim.gravity = gravity
+        if boxed:
+            sim.opening_angle2 = 0.0
+            sim.configure_box(boxed[0], boxed[1], boxed[2], boxed[3])
+            sim.boundary = "open"
+        for i in range(cfg["N"]):
+            kw = dict(m=cfg["ms"][i], x=xs[i][0], y=xs[i][1], z=xs[i][2])
+            if vs:
+                kw.update(vx=vs[i][0], vy=vs[i][1], vz=vs[i][2])
+            sim.add(**kw)
+        sim.N_active = cfg["Na"]; sim.testparticle_type = cfg["tp"]; sim.gravity_ignore = cfg["ignore"]
+        return sim
+
+    def tree_ready(sim):
+        clib.reb_simulation_update_tree(ctypes.byref(sim))
+        clib.reb_simulation_update_tree_gravity_data(ctypes.byref(sim))
+
+    def expect_direct(tag, cfg, xs, got, pairs=None, extra=None):
+        want, mag = oracle_direct(cfg, xs, [(0.0, 0.0, 0.0)], pairs=pairs)
+        if extra:
+            want = [tuple(w[c_] + extra[k][c_] for c_ in range(3)) for k, w in enumerate(want)]
+            mag = [(m_[0] + max(abs(v) for v in extra[k]), m_[1] + 1) for k, m_ in enumerate(mag)]
+        q, kq = cmp_acc(got, want, mag)
+        worst[tag] = max(worst.get(tag, 0.0), q if q != float("inf") else 1e300)
+        if q > 1.0:
+            viol.append((tag, "%s: acceleration of particle %d differs from the declarative pairwise sum by %.3g x tolerance (N=%d N_active=%d type=%d ignore=%d)"
+                         % (tag, kq, q, cfg["N"], cfg["Na"], cfg["tp"], cfg["ignore"]), dict(cfg=cfg, xs=xs, particle=kq, got=got[kq], want=want[kq])))
+        return want, mag
+
+    import tempfile, pickle
+    for case in range(24 * T):
+        rng = c.rng.fork()
+        n = rng.randint(2, 9)
+        cfg = gen_common(rng, n)
+        xs = gen_positions(rng, n, cfg["scale"])
+        vs = [[rng.normal() for _ in range(3)] for _ in range(n)]
+        grav = ["basic", "compensated", "jacobi", "tree"][case % 4]
+        if grav == "jacobi":
+            cfg.update(ignore=1, soft=0.0)
+            cfg["ms"][0] = cfg["ms"][0] if cfg["ms"][0] > 0 else 1.0
+        boxed = None
+        if grav == "tree":
+            cfg.update(Na=-1, tp=0, ignore=0)
+            L = cfg["scale"] * 10
+            boxed = (L, rng.choice([1, 2, 3]), rng.choice([1, 2]), 1)
+            xs = [[max(-0.45 * L, min(0.45 * L, v)) for v in p] for p in xs]
+            if len(set(tuple(p) for p in xs)) != n:
+                continue
+        na = n if cfg["Na"] == -1 else cfg["Na"]
+
+        def oracle_for(cfg_, xs_):
+            if grav == "jacobi":
+                return oracle_jacobi(cfg_, xs_)
+            return oracle_direct(cfg_, xs_, [(0.0, 0.0, 0.0)], pairs=(lambda k, j: k != j) if grav == "tree" else None)
+
+        def check(tag, got, cfg_, xs_, extra=None):
+            want, mag = oracle_for(cfg_, xs_)
+            if extra:
+                want = [tuple(w[c_] + extra[k][c_] for c_ in range(3)) for k, w in enumerate(want)]
+                mag = [(m_[0] + max(abs(v) for v in extra[k]), m_[1] + 1) for k, m_ in enumerate(mag)]
+            q, kq = cmp_acc(got, want, mag)
+            worst[tag] = max(worst.get(tag, 0.0), q if q != float("inf") else 1e300)
+            if q > 1.0:
+                viol.append((tag + ":" + grav, "%s (%s): acceleration of particle %d differs from the declarative pairwise sum by %.3g x tolerance (N=%d N_active=%d type=%d ignore=%d)"
+                             % (tag, grav, kq, q, cfg_["N"], cfg_["Na"], cfg_["tp"], cfg_["ignore"]), dict(cfg=cfg_, xs=xs_, gravity=grav, particle=kq, got=got[kq], want=want[kq])))
+
+        # ---- (2) variational particles with NON-ZERO data present: the forces on the real particles must not see them
+        sim = mk_plain(cfg, xs, grav, vs, boxed)
+        if grav == "jacobi":
+            sim.integrator = "whfast"
+        try:
+            var1 = sim.add_variation()
+            var2 = sim.add_variation(order=2, first_order=var1) if case % 3 == 0 else None
+            if case % 5 == 0 and na < n:
+                sim.add_variation(testparticle=n - 1)
+            for i in range(n, sim.N):
+                pv = sim.particles[i]
+                pv.m = rng.uniform(0.1, 1.0); pv.x, pv.y, pv.z = rng.normal(), rng.normal(), rng.normal()
+                pv.vx, pv.vy, pv.vz = rng.normal(), rng.normal(), rng.normal()
+            if grav == "tree":
+                tree_ready(sim)
+            calc(sim)
+            check("dim:variational-present", read_acc(sim, n), cfg, xs)
+            dim("variational: 1st order non-zero data present")
+            if var2 is not None:
+                dim("variational: 2nd order present")
+        except Exception as ex:
+            if "tree" not in grav:
+                viol.append(("dim:variational:crash:" + grav, "force evaluation with variational particles raised %r" % (ex,), dict(cfg=cfg, xs=xs, gravity=grav)))
+
+        # ---- (5) additional_forces callback: update_acceleration = gravity + what the callback adds
+        sim = mk_plain(cfg, xs, grav, vs, boxed)
+        if grav == "jacobi":
+            sim.integrator = "whfast"
+        extra = [(rng.normal(), rng.normal(), rng.normal()) for _ in range(n)]
+
+        def af(simp, _extra=extra):
+            ps_ = simp.contents.particles
+            for i_ in range(len(_extra)):
+                ps_[i_].ax += _extra[i_][0]; ps_[i_].ay += _extra[i_][1]; ps_[i_].az += _extra[i_][2]
+        sim.additional_forces = af
+        if case % 2:
+            sim.force_is_velocity_dependent = 1
+        if grav == "tree":
+            tree_ready(sim)
+        clib.reb_simulation_update_acceleration(ctypes.byref(sim))
+        check("dim:additional_forces", read_acc(sim, n), cfg, xs, extra=extra)
+        dim("callbacks: additional_forces adds to the routine's result")
+
+        # ---- (6) restore: copy / file / pickle, then evaluate the force on the restored simulation
+        sim = mk_plain(cfg, xs, grav, vs, boxed)
+        if grav == "jacobi":
+            sim.integrator = "whfast"
+        how = ["copy", "file", "pickle"][case % 3]
+        if how == "copy":
+            sim2 = sim.copy()
+        elif how == "pickle":
+            sim2 = pickle.loads(pickle.dumps(sim))
+        else:
+            fn_ = os.path.join(tempfile.gettempdir(), "c02_%d_%d.bin" % (os.getpid(), case))
+            sim.save_to_file(fn_, delete_file=True)
+            sim2 = rebound.Simulation(fn_)
+            os.remove(fn_)
+        if grav == "tree":
+            tree_ready(sim2)
+        calc(sim2)
+        check("dim:restore-" + how, read_acc(sim2, n), cfg, xs)
+        dim("histories: force after restore (%s)" % how)
+
+        # ---- (6) a particle removed, then force (tree must be rebuilt around the hole)
+        if n >= 3:
+            sim = mk_plain(cfg, xs, grav, vs, boxed)
+            if grav == "jacobi":
+                sim.integrator = "whfast"
+            kill = rng.randint(1, n - 1)
+            sim.remove(kill, keep_sorted=(grav != "tree"))
+            if grav == "tree":
+                tree_ready(sim)
+            m_ = sim.N
+            xs2 = [[sim.particles[i].x, sim.particles[i].y, sim.particles[i].z] for i in range(m_)]
+            cfg2 = dict(cfg); cfg2["N"] = m_; cfg2["ms"] = [sim.particles[i].m for i in range(m_)]
+            cfg2["Na"] = sim.N_active
+            if m_ == n - 1 and (cfg2["Na"] == -1 or 1 <= cfg2["Na"] <= m_):
+                calc(sim)
+                check("dim:after-remove", read_acc(sim, m_), cfg2, xs2)
+                dim("histories: force after a particle was removed")
+
+        # ---- (7) system far from the origin (centre of mass away): translation invariance of the force
+        sim = mk_plain(cfg, [[p[0] + 1e3 * cfg["scale"], p[1] - 3e2 * cfg["scale"], p[2]] for p in xs], grav, vs,
+                       None if grav != "tree" else None)
+        if grav != "tree":
+            if grav == "jacobi":
+                sim.integrator = "whfast"
+            calc(sim)
+            xs3 = [[sim.particles[i].x, sim.particles[i].y, sim.particles[i].z] for i in range(n)]
+            check("dim:offset-origin", read_acc(sim, n), cfg, xs3)
+            dim("geometry: centre of mass far from the origin")
+
+    # ---- (7) tree: non-square root layouts and particles exactly on cell faces / root-box boundaries
+    for case in range(8 * T):
+        rng = c.rng.fork()
+        L = rng.choice([1.0, 8.0])
+        lay = rng.choice([(2, 1, 1), (1, 3, 1), (2, 2, 1), (3, 2, 1), (1, 1, 2)])
+        grid = [-0.5, -0.25, 0.0, 0.25, 0.5]
+        n = rng.randint(3, 10)
+        xs, seen = [], set()
+        for _ in range(n):
+            for _try in range(20):
+                p = [L * lay[c_] * (rng.choice(grid) * 0.98 if rng.chance(0.7) else rng.uniform(-0.49, 0.49)) for c_ in range(3)]
+                p = [L * round(v / L * 4) / 4 if rng.chance(0.5) else v for v in p]      # exactly on faces of cells of size L/4 ... L
+                p = [max(-0.5 * L * lay[c_], min(0.5 * L * lay[c_], v)) * (1 - 1e-12) for c_, v in enumerate(p)]
+                if tuple(p) not in seen:
+                    seen.add(tuple(p)); xs.append(p); break
+        n = len(xs)
+        cfg = dict(N=n, Na=-1, tp=0, ignore=0, G=rng.choice([1.0, 4.3]), soft=rng.choice([0.0, 0.05 * L]), ms=[rng.choice([0.0, 1.0, 1e-3]) for _ in range(n)], mkind=9, scale=L)
+        sim = rebound.Simulation()
+        sim.G = cfg["G"]; sim.softening = cfg["soft"]; sim.gravity = "tree"; sim.opening_angle2 = 0.0
+        sim.configure_box(L, lay[0], lay[1], lay[2])
+        sim.boundary = "open"
+        try:
+            for i in range(n):
+                sim.add(m=cfg["ms"][i], x=xs[i][0], y=xs[i][1], z=xs[i][2])
+        except Exception:
+            continue
+        tree_ready(sim)
+        if sim.N != n:
+            continue
+        xs = [[sim.particles[i].x, sim.particles[i].y, sim.particles[i].z] for i in range(n)]
+        cfg["ms"] = [sim.particles[i].m for i in range(n)]
+        calc(sim)
+        expect_direct("dim:tree-faces-layout", cfg, xs, read_acc(sim, n), pairs=lambda k, j: k != j)
+        dim("geometry: tree, non-square root layout, particles on cell faces")
+
+    # ---- (9) scale: COMPENSATED work array grown across an allocation (N_allocated_gravity_cs), N around 128
+    for nbig in ([130] if not c.thorough else [127, 128, 129, 200, 1030]):
+        rng = c.rng.fork()
+        cfg = gen_common(rng, nbig)
+        cfg.update(Na=-1, ignore=0)
+        xs = gen_positions(rng, nbig, cfg["scale"])
+        sim = mk_plain(dict(cfg, N=3), xs[:3], "compensated")
+        calc(sim)                              # allocates gravity_cs for 3 particles
+        for i in range(3, nbig):
+            sim.add(m=cfg["ms"][i], x=xs[i][0], y=xs[i][1], z=xs[i][2])
+        calc(sim)
+        expect_direct("dim:grow-gravity_cs", cfg, xs, read_acc(sim, nbig))
+        dim("scale: work arrays grown across an allocation (N=%d)" % nbig)
+    for (_, cfg_m, _) in [(0, 0, 0)]:
+        pass
+    dim("histories: force right after an integrator switch", 0)
+    dim("time: shear ghost boxes at t != 0", 0)
+    dim("roles: non-identity encounter map (MERCURIUS/TRACE)", 0)
+
     # ======================================================================= force after an integrator switch
     # "whichever routine is selected": gravity_ignore_terms left behind by one integrator must not leak into the next
     SWI = [("whfast", "jacobi", 1), ("whfast", "democraticheliocentric", 2), ("whfast", "whds", 2), ("saba", None, 1), ("eos", None, 2),
@@ -593,6 +838,7 @@ def run(c):
             want, mag = oracle_direct(cfg, xs, [(0.0, 0.0, 0.0)])
             q, kq = cmp_acc(got, want, mag)
             nsw += 1
+            dim("histories: force right after an integrator switch")
             c.count(("switch", inta, coa, intb, cob))
             hist["switch"] = hist.get("switch", 0) + 1
             if q > 1.0:
@@ -703,6 +949,8 @@ def run(c):
             else:
                 w1.append(init[k]); m1.append((0.0, 0))
         note("merc0", cfg); note("merc1", cfg)
+        if mp != list(range(n)):
+            dims["roles: non-identity encounter map (MERCURIUS/TRACE)"] = dims.get("roles: non-identity encounter map (MERCURIUS/TRACE)", 0) + 1
         # L evaluated near a clamp changes by O(1)*ulp(y): allow the rounding of y through L' <= 2.2
         check_oracle("merc0", cfg, xs, got0, want0, mag0, dict(dcrit=dcrit, L=LNAMES[kind]))
         check_oracle("merc1", cfg, xs, got1, w1, m1, dict(dcrit=dcrit, L=LNAMES[kind], map=mp, encN=encN, encNa=encNa, init=init))
@@ -779,6 +1027,8 @@ def run(c):
             else:
                 w1.append(init[k]); m1.append((0.0, 0))
         note("trace0", cfg); note("trace1", cfg)
+        if mp != list(range(n)):
+            dims["roles: non-identity encounter map (MERCURIUS/TRACE)"] = dims.get("roles: non-identity encounter map (MERCURIUS/TRACE)", 0) + 1
         check_oracle("trace0", cfg, xs, got0, want0, mag0, dict(ks=ks))
         check_oracle("trace1", cfg, xs, got1, w1, m1, dict(ks=ks, map=mp, encN=encN, encNa=encNa, init=init))
         kstr = "".join("1" if ks[a][b] else "0" for a in range(n) for b in range(n))
@@ -994,6 +1244,10 @@ def run(c):
                                     "impl": " ".join(et)[:600]}
             else:
                 stats["within_tol"] += 1
+    c.cov["dimensions"] = dict(sorted(dims.items()))
+    for nm_, cnt_ in sorted(dims.items()):
+        if cnt_ == 0:
+            c.broken.append("coverage: dimension '%s' not covered" % nm_)
     c.cov["model_lines_compared"] = len(lines)
     c.cov["correspondence"] = stats
     c.cov["routine_histogram"] = hist
